@@ -136,7 +136,8 @@ def gen_U(rng, valid, for_fn):
                                   for _ in range(3)])
                     U = U + E
         else:
-            kind = rng.weighted([("stretch", 3), ("shear", 3), ("tilt", 3), ("offdiag", 2), ("entry", 2), ("improper", 2),
+            kind = rng.weighted([("stretch", 3), ("shear", 3), ("tilt", 3), ("offdiag", 2), ("diag_det1", 3), ("diag", 1),
+                                 ("entry", 2), ("improper", 2),
                                  ("neg", 1), ("scale", 1), ("axis_scale", 1), ("axis_bump", 2), ("axis_entry", 1)])
             R = random_rotation(rng)
             if kind.startswith("axis"):
@@ -167,6 +168,15 @@ def gen_U(rng, valid, for_fn):
                 s = rng.loguniform(3e-3, 0.3)
                 E = np.array([[rng.uniform(-s, s) for _ in range(3)] for _ in range(3)])
                 U = R + E
+            elif kind in ("diag_det1", "diag"):
+                # columns (or rows) rescaled but kept perpendicular: only the LENGTHS are wrong; with "det1" the product
+                # of the three factors is 1, so the determinant test cannot see it either
+                a_ = 1.0 + rng.loguniform(3e-3, 0.6) * (1 if rng.chance(0.5) else -1)
+                b_ = 1.0 + rng.loguniform(3e-3, 0.6) * (1 if rng.chance(0.5) else -1) if rng.chance(0.6) else 1.0
+                c_ = 1.0 / (a_ * b_) if kind == "diag_det1" else 1.0
+                f = [a_, b_, c_]
+                rng.shuffle(f)
+                U = R.dot(np.diag(f)) if rng.chance(0.7) else np.diag(f).dot(R)
             elif kind == "tilt":
                 # one column rotated towards another, lengths kept: only the ANGLES between columns are wrong
                 # (column norms stay 1, the determinant moves at second order only)
